@@ -330,7 +330,8 @@ func C16(rep *ev.Reporter, tier string) {
 	for _, sp := range spaces {
 		var ops []c16Op
 		for kb := range sp.keys {
-			for _, t := range []string{"X1", "X2", "Y", "X1+X2"} {
+			// incl. resources that pair a rule with a verbatim copy of itself or with a rule the knowledge base may hold already
+			for _, t := range []string{"X1", "X2", "Y", "X1+X2", "Y+X1", "X1+X1"} {
 				ops = append(ops, c16Op{"build", kb, t})
 			}
 			ops = append(ops, c16Op{"build", kb, "X2+BAD"}) // enabled only while X exists (see below)
